@@ -17,7 +17,9 @@ DECIDES = ('D1/D1b: in Cython/Compiler, Build/Dependencies.py, Cache.py, Inline.
            'memoised value only through those projections - attribute reads by prefix, method calls by the union of the self-attributes every compiler method of that name reads; '
            'D5: no class-level mutable container is mutated through instances without being rebound per instance; D6: compile_multiple never reuses a Context for a second source.')
 NOT_DECIDED = ('nondeterminism from file-system listing order (it changes the order of module lists, not a generated file), parallel build scheduling, object addresses used as set-iteration order where all '
-               'consumers are order-insensitive (exempted case by case), and state shared through module-level globals other than memo containers.')
+               'consumers are order-insensitive (exempted case by case), and state shared through module-level globals other than memo containers.  D3p resolves p.method() nominally (union over every compiler class that defines the method): '
+               'a key holding exactly the attributes that one override reads is still reported when another override reads more; functional dependencies between attributes (a key on p.a where the value reads '
+               'p.b = f(p.a)) are not known to it; a parameter handed as a whole to an opaque function inside the KEY expression counts as present as a whole.')
 
 MUTATIONS = [
     # patches and outcomes under /verif/mutants/C42/<name>/
@@ -26,7 +28,7 @@ MUTATIONS = [
     ('Cython/Compiler/Code.py, ModuleNode.py', 'label-with-id (.format), label-id-concat, const-name-hash, sort-by-id', 'D2'),
     ('Cython/Compiler/Code.py, Symtab.py', 'header-timestamp, header-pid, tempname-random', 'D4'),
     ('Cython/Compiler/PyrexTypes.py, Code.py', 'typeid-cache-no-scope, utilcache-no-context, specialize-cache-name-only', 'D3 / D3g'),
-    ('Cython/Compiler/PyrexTypes.py, Code.py, Symtab.py', 'seed C42h (key scope.name, value scope.mangle()), typeid-key-scope-truth, typeid-key-and-name, typeid-key-getattr-name, typeid-key-type-of-scope, '
+    ('Cython/Compiler/PyrexTypes.py, Code.py', 'seed C42h (key scope.name, value scope.mangle()), typeid-key-scope-truth, typeid-key-and-name, typeid-key-getattr-name, typeid-key-type-of-scope, '
      'typeid-key-string-name, tempita-cache-context-keys, tempita-cache-context-len, specialize-key-kwarg-names', 'D3p'),
     ('Cython/Compiler/Symtab.py', 'idcounters-class-level', 'D5'),
     ('Cython/Compiler/Main.py', 'context-reused', 'D6'),
